@@ -13,6 +13,11 @@ CLAIMED = {
     'C03': ('Bounded model checking of readUnixTime/toAbsTime/comparisons/addX on symbolic integer-millisecond instants: every '
             'execution path for every instant of every year in the range is decided against a closed-form Gregorian oracle.',
             'DESIGN.md#c03', 'years 1970-2099 (quick) / 1970-2400 (thorough); integer milliseconds only', ''),
+    'C01': ('Bounded model checking of one inductive step of the feature table: from every table satisfying the representation invariant (16 ordered name selections) with symbolic '
+            'values, every applicable feature-mutating operation (create / update / delete / bracket assignment / single-observation write / operator objects / expressions with and without =) is '
+            'executed on the real Track and compared per path with a dict model on z3 terms; the invariant is re-established, so histories of any length are covered by induction; bounded histories '
+            'from the empty table confirm the pre-states are the reachable ones.',
+            'DESIGN.md#c01', 'names {a,b,c} + coordinate targets; n = 2 (quick) / 1..3 (thorough); histories of depth 2 / 3', ''),
     'C02': ('Bounded model checking of the algebraic-expression evaluator (string rewriting, makeRPN, RPN stack machine, __applyOperation dispatch, operator classes) on symbolic '
             'feature vectors, coordinates and external scalar: the expression *program* is enumerated (exhaustive depth 1 over the full alphabet, depth 2 over a reduced alphabet, seeded random deeper trees; '
             'two renderings), the data are symbolic, and per path every returned value is proved equal to an independent tree evaluator written on z3 terms; assignment / no-assignment frame conditions checked per path.',
